@@ -26,6 +26,7 @@ func init() {
 	reg1("C08Tsr", SetupC08Tsr, HarnessC08Tsr)
 	reg1("C11Serve", SetupC11Serve, HarnessC11Serve)
 	reg1("C14Seq", SetupC14Seq, HarnessC14Seq)
+	reg1("C12History", SetupC12History, HarnessC12History)
 	reg0("C13Chain", HarnessC13Chain)
 	reg0("C19Options", HarnessC19Options)
 	reg0("C19ClientIP", HarnessC19ClientIP)
